@@ -1571,11 +1571,16 @@ class Lowerer:
         name = e.get('name', '')
         b = self.expr(base)
         if not name:
-            return b  # anonymous struct/union member: C11 anonymous members
+            # anonymous struct/union member: C11 anonymous members are accessed through the enclosing object
+            return '(*%s)' % b if e.get('isArrow') else b
         # base-class member access: walk through qx_base if the field is not in the static class
-        bt = self.ctype(base['type'])
-        rec_t = bt.deref() if e.get('isArrow') else bt
-        path = self.field_path(rec_t.rec, md)
+        tstr = base['type'].get('desugaredQualType') or base['type'].get('qualType', '')
+        if '(anonymous' in tstr or '(unnamed' in tstr:
+            path = ''
+        else:
+            bt = self.ctype(base['type'])
+            rec_t = bt.deref() if e.get('isArrow') else bt
+            path = self.field_path(rec_t.rec, md)
         return '%s%s%s%s' % (b, '->' if e.get('isArrow') else '.', path, name)
 
     def field_path(self, rec, md):
